@@ -201,7 +201,7 @@ theorem getMap_total {s : BState} {a b : Nat} (hab : a ≤ b) (hb : b < s.offs.l
 /-- `get_line` is the text `b` of the entry -/
 theorem getLine_eq {s : BState} {i : Nat} {o : LineOffset} {l : List Char} (ho : s.offs[i]? = some o)
     (h : s.getLine i = .ok l) : Lines.slice s.src o.firstNonspace o.lineEnd = .ok l := by
-  have := liftL_ok h
+  have := liftL_eq_ok h
   simpa [Lines.getLine, ho] using this
 
 /-! ## the rewriting both containers perform -/
